@@ -54,6 +54,7 @@ def run(data):
             for x in l: _cl.setdefault((f, x), set()).add(o_)
     base_dups = sorted(x for (f, x), os_ in _cl.items() if len(os_) > 1)
     out = []
+    BLOBS = {}
     for op in data["ops"]:
         rec = {}
         try:
@@ -93,6 +94,15 @@ def run(data):
             elif k == "danon":
                 a, b = tracked[op[1]], tracked[op[2]]
                 o = a * b if op[3] == "mul" else (a / b if op[3] == "div" else a ** op[4])
+            elif k == "snap":
+                import pickle as _pickle
+                o = tracked[op[1]]; BLOBS[op[1]] = [_pickle.dumps(o), _pickle.dumps(o, protocol=2)]
+            elif k == "load":
+                # documents of the object taken earlier in this history, read back now: the same object, and nothing it was given since is lost
+                import pickle as _pickle
+                o = tracked[op[1]]
+                for blob in BLOBS.get(op[1], []):
+                    if _pickle.loads(blob) is not o: raise RuntimeError("a pickle of a registered object loaded as another object")
             else:
                 raise RuntimeError(k)
             before = len(tracked)
